@@ -30,6 +30,10 @@ next_verified = Fn(FI, "next", impl=ITER_IMPL, slot="resolver", ret="res", key="
           " asm::ResolverNode::Addr(n) => defined(&defs.addr_directives, n.item_ref),"
           " _ => true })", ["C03", "C01"]),
         C("cursor_stays_well_formed", "res is Ok ==> " + iter_wf("final(self)"), ["C03"]),
+        C("top_level_symbols_start_on_a_label_alignment_boundary", "res is Ok && old(self).index < old(self).ast.nodes@.len() ==> (match old(self).ast.nodes@[old(self).index as int] {"
+          " asm::AstAny::Symbol(s) => (bank_of(defs, old(self).bank_ref).label_align is Some && bank_of(defs, old(self).bank_ref).label_align->0 > 0 && decls.symbols.spec_decl(s.item_ref->0).depth == 0 && bank_of(defs, old(self).bank_ref).addr_start.val() >= 0) ==>"
+          " final(self).bank_ref == old(self).bank_ref && (bank_of(defs, old(self).bank_ref).addr_start.val() * bank_of(defs, old(self).bank_ref).addr_unit + final(self).bank_data@[old(self).bank_ref.0 as int].cur_position) % (bank_of(defs, old(self).bank_ref).label_align->0 as int) == 0,"
+          " _ => true })", ["C06", "C01"]),
         C("scope_follows_the_walk", "res is Ok && old(self).index < old(self).ast.nodes@.len() ==> (match old(self).ast.nodes@[old(self).index as int] {"
           " asm::AstAny::Symbol(s) => *final(self).symbol_ctx == decls.symbols.spec_decl(s.item_ref->0).ctx,"
           " _ => final(self).symbol_ctx == old(self).symbol_ctx })", ["C15"]),
@@ -39,6 +43,7 @@ next_verified = Fn(FI, "next", impl=ITER_IMPL, slot="resolver", ret="res", key="
     inserts=[
         Insert("        let ast_any = &self.ast.nodes[self.index];", "\n        proof { assert(node_ok(self.ast.nodes@[self.index as int], defs)); assert(*ast_any == self.ast.nodes@[self.index as int]); }\n", where="after"),
         Insert("        Ok(Some(ResolverContext {", "        proof { if self.index < self.ast.nodes@.len() { assert(node_ok(self.ast.nodes@[self.index as int], defs)); } }\n", where="before"),
+        Insert("                        cur_bank_data.cur_position += bits_until_alignment(", "                        let ghost pos0 = cur_bank_data.cur_position; proof { let b = bank_of(defs, old(self).bank_ref); if label_align > 0 { lemma_until_aligned_lands(b.addr_start.val() * b.addr_unit + pos0, label_align as int); } }\n", where="before"),
         Insert("                        cur_bank_data.cur_position += bits_until_alignment(", "                        proof { assume(cur_bank_data.cur_position + label_align <= usize::MAX); }\n", where="before", finding="D9a",
                why="finding guard D9a: bank position + alignment overflows usize"),
     ],
